@@ -56,17 +56,17 @@ CLAIMS = {
          "Trusted: per-limb kernels compute the ring map.",
          "shared limb-coverage / column analysis restricted to the C09 files + sibling verdict comparison", True),
  "C03": ("other",
-         "Only structural clauses of C03 are decided: the digit loop of the gadget product of the key-switching family (gglwe_product_dft) selects the operand limbs with step == dsize and an offset that, added to the limb offset at which the digit's product is accumulated, gives dsize - 1 on every path of the loop body (KS-1, path-wise piecewise-linear identity over expressions extracted from MIR); the Galois-element helpers compute in (Z/2NZ)* with the cyclotomic order only (SIGN-3); vmp kernels with a limb offset zero-fill what they do not write (WR-4). The zeroing of multi-digit accumulators and the scratch declarations of the family are decided under C12. Noise, the gadget arithmetic, trace / packing / sample extraction are not decided.",
+         "Only structural clauses of C03 are decided: the digit loop of the gadget product of the key-switching family (gglwe_product_dft) selects the operand limbs with step == dsize and an offset that, added to the limb offset at which the digit's product is accumulated, gives dsize - 1 on every path of the loop body (KS-1, path-wise piecewise-linear identity over expressions extracted from MIR); the Galois-element helpers compute in (Z/2NZ)* with the cyclotomic order only (SIGN-3); vmp kernels with a limb offset zero-fill what they do not write (WR-4). The zeroing of multi-digit accumulators and the scratch declarations of the family are decided under C12. Noise, the gadget arithmetic, trace / packing / sample extraction are not decided. Also decided (RAD-1/RAD-2): every cross-radix conversion of the family that is skipped or taken on a radix comparison is guarded by the comparison of exactly its input and output radices, and no operation asserting equal radices is called on a branch whose guards make its operands' radices differ.",
          "DESIGN.md §8 (C03)",
          "Trusted: vec_znx_dft_copy / vec_znx_dft_apply select limbs offset, offset + step, ...; vmp accumulates at limb_offset. Thin, clause-scoped claim.",
          "path-wise piecewise-linear identity over the digit loop + shared structural rules", True),
  "C04": ("other",
-         "Only structural clauses of C04 are decided: the digit loop of the external product (glwe_external_product_internal) satisfies step == dsize and offset + limb_offset == dsize - 1 on every path (KS-1); each CMux form (cmux, cmux_assign, cmux_assign_neg) computes (x - y) * s + y with the operand added back after the product being the subtrahend of the difference that was multiplied (CMUX-1), so that - given the external product - a selector bit returns exactly one of the two inputs; vmp kernels with a limb offset zero-fill what they do not write (WR-4). m1 * m2 within noise, GGSW row expansion and radix mismatches are not decided.",
+         "Only structural clauses of C04 are decided: the digit loop of the external product (glwe_external_product_internal) satisfies step == dsize and offset + limb_offset == dsize - 1 on every path (KS-1); each CMux form (cmux, cmux_assign, cmux_assign_neg) computes (x - y) * s + y with the operand added back after the product being the subtrahend of the difference that was multiplied (CMUX-1), so that - given the external product - a selector bit returns exactly one of the two inputs; vmp kernels with a limb offset zero-fill what they do not write (WR-4). m1 * m2 within noise, GGSW row expansion and radix mismatches are not decided. Also decided (RAD-1/RAD-2, external products, cswap, cmux): conversions are guarded by the comparison of the radices they convert between; no radix-asserting operation is called with operands the dominating guards make different (the cross-radix cswap defect, DESIGN §9 row 56).",
          "DESIGN.md §8 (C04)",
          "Trusted: the external product multiplies by the GGSW plaintext. Thin, clause-scoped claim.",
          "path-wise piecewise-linear identity over the digit loop + operand-role matching of the CMux forms", True),
  "C05": ("other",
-         "Only the split of the convolution offset is decided: each of the seven convolution-based products of poulpy-core (glwe_mul_const[_assign], glwe_mul_plain[_assign], glwe_tensor_apply, glwe_tensor_apply_add_assign, glwe_tensor_square_apply) derives a limb offset `hi` and an intra-limb offset `lo` from `cnv_offset`, hands `hi` to every convolution kernel call and `lo` to every big normalisation of the function, and hi * base2k + lo + base2k == cnv_offset holds on every path for every offset and radix - a piecewise-linear identity decided on the expressions extracted from MIR (path-specific definitions, the path's comparisons as side conditions); squaring, multiplying and the accumulating form derive the split from the same expressions (CNV-2). The CKKS callers' choice of cnv_offset is decided under C16 (CK-9). Convolution kernels, partial-limb masks, relinearisation and noise are not decided.",
+         "Only the split of the convolution offset is decided: each of the seven convolution-based products of poulpy-core (glwe_mul_const[_assign], glwe_mul_plain[_assign], glwe_tensor_apply, glwe_tensor_apply_add_assign, glwe_tensor_square_apply) derives a limb offset `hi` and an intra-limb offset `lo` from `cnv_offset`, hands `hi` to every convolution kernel call and `lo` to every big normalisation of the function, and hi * base2k + lo + base2k == cnv_offset holds on every path for every offset and radix - a piecewise-linear identity decided on the expressions extracted from MIR (path-specific definitions, the path's comparisons as side conditions); squaring, multiplying and the accumulating form derive the split from the same expressions (CNV-2). The CKKS callers' choice of cnv_offset is decided under C16 (CK-9). Convolution kernels, partial-limb masks, relinearisation and noise are not decided. Also decided: raw column offsets of the convolution kernels use the limb count of the indexed operand (WR-2c); relinearisation converts the tensor into the key radix exactly when those two radices differ (RAD-1, DESIGN §9 row 55) and no radix-asserting operation is called with provably different radices (RAD-2).",
          "DESIGN.md §8 (C05)",
          "Trusted: cnv_* kernels shift by `hi` limbs and vec_znx_big_normalize by `lo` bits; the `+ base2k` of the law is read off the code (identical in all seven products). Thin, clause-scoped claim.",
          "path-wise piecewise-linear identity over expressions extracted from MIR + sibling agreement", True),
@@ -76,8 +76,8 @@ CLAIMS = {
          "Trusted: kernels compute the transform / product on the limbs they are given. Thin, clause-scoped claim built from rules shared with C10, C11 and C17 (four of the repaired defects - 509bc53, c0d9a18, a964edc, 2ac01c0 - sit in these files).",
          "MIR loop/range extraction + exact min/max lattice evaluation of limb coverage + family comparison", True),
  "C08": ("other",
-         "Only the structure of the carry chains of C08 is decided, on MIR of the normalisation / shift shape functions (small and big accumulators, FFT64 and NTT120 families): the final normalisation step closes a chain (NRM-1); the carry buffer is initialised before a middle / final step reads it on every feasible path, zero-trip loops and single-limb cases included (WR-6); a right shift passes the carry through exactly size(operand) + steps normalisation steps for every operand size, result size and shift - a piecewise-linear identity over the loop trip counts, so that the carry out of the top limb lands on the right limb also when the shift exceeds the precision of the result (NRM-2); every limb of the selected result column is produced and no other column is addressed (WR-1/WR-2 on the C08 files); the AVX step kernels apply the digit / carry helpers per lsh branch as often as their reference twins (BK-6). Digit arithmetic, rounding, balanced digits, cross-radix accumulation and integer encoding / decoding are not decided.",
-         "DESIGN.md §8 (C08), §9 rows 17, 20, 53",
+         "Only the structure of the carry chains of C08 is decided, on MIR of the normalisation / shift shape functions (small and big accumulators, FFT64 and NTT120 families): the final normalisation step closes a chain (NRM-1); the carry buffer is initialised before a middle / final step reads it on every feasible path, zero-trip loops and single-limb cases included (WR-6); a right shift passes the carry through exactly size(operand) + steps normalisation steps for every operand size, result size and shift - a piecewise-linear identity over the loop trip counts, so that the carry out of the top limb lands on the right limb also when the shift exceeds the precision of the result (NRM-2); every limb of the selected result column is produced and no other column is addressed (WR-1/WR-2 on the C08 files); the AVX step kernels apply the digit / carry helpers per lsh branch as often as their reference twins (BK-6). Digit arithmetic, rounding, balanced digits, cross-radix accumulation and integer encoding / decoding are not decided. Also decided: same-radix offset normalisations run max(size(operand) - limb_offset, 0) chain steps for every size and offset (NRM-3, DESIGN §9 row 57); the scalar step kernels pair get_carry(b, x, d) with d = get_digit(b, x), never carry a digit source on by a plain shift, never drop a computed carry (DC-1).",
+         "DESIGN.md §8 (C08), §9 rows 17, 20, 53, 57",
          "Trusted: the step kernels compute balanced digit / carry; this is a thin, clause-scoped claim (three carry-chain defects of the shift family were found and repaired through these rules).",
          "MIR typestate of carry buffers + piecewise-linear identity over loop trip counts + limb/column coverage", True),
  "C02": ("other",
